@@ -870,7 +870,7 @@ fn py_pool(tier: Tier, rng: &mut Rng) -> Vec<(Py, &'static str)> {
     ];
     out.extend(lists);
     // seeded random objects: images of random Rust values plus random raw objects
-    let extra = if tier == Tier::Quick { 60 } else { 600 };
+    let extra = if tier == Tier::Quick { 60 } else { 3000 };
     for _ in 0..extra {
         out.push((random_py(rng, 3), "random"));
     }
@@ -990,7 +990,7 @@ ORACLE (independent specification in the harness): convertible objects (ints in 
         vals.push(l(vec![FieldValue::Float64(0.5), FieldValue::Float64(-0.0)]));
         vals.push(l(vec![l(vec![FieldValue::from("a\"\\\n")]), l(vec![FieldValue::from("日本")])]));
         vals.push(l(vec![FieldValue::Boolean(true), FieldValue::Boolean(false)]));
-        let extra = if tier == Tier::Quick { 40 } else { 400 };
+        let extra = if tier == Tier::Quick { 40 } else { 2000 };
         for _ in 0..extra {
             vals.push(random_value(rng, 2));
         }
@@ -1010,7 +1010,7 @@ ORACLE (independent specification in the harness): convertible objects (ints in 
             out.push(Case::new(Sexp::call("e2e-numbers", vec![Sexp::atom(stem), args_sexp(&args)]), &["e2e-numbers"]));
         }
         // end to end: kinds
-        let seeds = if tier == Tier::Quick { 6 } else { 60 };
+        let seeds = if tier == Tier::Quick { 6 } else { 300 };
         for k in 0..seeds {
             let seed = rng.next_u64() % 1_000_000;
             let items = kinds_items(seed);
